@@ -140,6 +140,32 @@ pub fn run_analysis(op: &str, args: &[Sx]) -> Result<String, String> {
                 };
                 out.push(format!("({} {})", n, s));
             }
+            // ... and on every poetic number literal of a top-level assignment or array push
+            for b in &program.code {
+                if let Block::NonEmpty(ss) = b {
+                    for st in ss {
+                        let lit = match st {
+                            Statement::PoeticAssignment(PoeticAssignment::Number(PoeticNumberAssignment {
+                                rhs: PoeticNumberAssignmentRHS::PoeticNumberLiteral(p),
+                                ..
+                            })) => Some(p),
+                            Statement::ArrayPush(ArrayPush { value: Some(ArrayPushRHS::PoeticNumberLiteral(p)), .. }) => Some(p),
+                            _ => None,
+                        };
+                        if let Some(p) = lit {
+                            let n = match NumericConstantFolder.visit_poetic_number_literal(p) {
+                                Ok(c) => format!("ok:{}", fbits(c.value)),
+                                Err(x) => format!("err:{}", fold_err(x)),
+                            };
+                            let s = match SimpleStringConstantFolder.visit_poetic_number_literal(p) {
+                                Ok(c) => format!("ok:{}", hex(&c.value)),
+                                Err(x) => format!("err:{}", fold_err(x)),
+                            };
+                            out.push(format!("(poetic {} {})", n, s));
+                        }
+                    }
+                }
+            }
             Ok(format!("ok {}", out.join(" ")))
         }
         // (ana <id> lint <src>)
